@@ -4,16 +4,20 @@ the executable models and prints one output line per op line.
 `case <n>` resets every component's state and is echoed.
 -/
 import Vipnode.Drv.Store
+import Vipnode.Drv.Pool
 open Vipnode Vipnode.Drv
 
 structure DState where
   store : Store := {}
+  pool : Pool := {}
 
 def stepLine (st : DState) (line : String) : DState × String :=
   match (line.trimAscii.toString.splitOn " ").filter (· ≠ "") with
   | "case" :: rest => ({}, "case " ++ joinS rest)
   | "base" :: rest => (st, "base " ++ joinS rest)
   | "store" :: args => let (s, o) := storeStep st.store args; ({ st with store := s }, o)
+  | "pool" :: args => let (s, o) := poolStep st.pool args; ({ st with pool := s }, o)
+  | ["noop"] => (st, "noop")
   | [] => (st, "")
   | _ => (st, "bad-op")
 
